@@ -257,15 +257,21 @@ TPFX = [b"", b"2|", b"2|1:0|", b"2|1:0|1:1|0:|", b"2|1:0|1:1|0:|0:|", b"1|", b"|
 
 
 def pre_total(pi: int, free: bytes, asstr: bool, dictsec: bool, ni: int, minv: int) -> bool:
-    if not (0 <= pi < len(TPFX) and len(free) <= P.L and 0 <= ni < len(NAMES) and 1 <= minv <= 2):
+    if P.nshards > 1:
+        # pinned per shard by equality (prefix index, free length)
+        if pi != P.shard % len(TPFX) or len(free) != P.shard // len(TPFX):
+            return False
+    # the name only matters after a signature matched, which a short input cannot achieve: TN names
+    if not (0 <= pi < len(TPFX) and len(free) <= P.L and 0 <= ni < P.TN and 1 <= minv <= 2):
         return False
     if "dict-secret-v1-assert" in P.exclude and dictsec and minv == 1 and web._get_version(TPFX[pi] + free) == 1:
         return False
-    return in_shard(pi + len(TPFX) * len(free))
+    return True
 
 
-@harness(pre=pre_total, quick=dict(L=2, timeout=45, reach_timeout=200), thorough=dict(L=5, timeout=1200, reach_timeout=300),
-         nshards=dict(quick=24, thorough=48), reach=["v2_fields_parsed", "v1_three_parts"],
+@harness(pre=pre_total, quick=dict(L=2, TN=1, timeout=120, reach_timeout=200),
+         thorough=dict(L=5, TN=4, timeout=1200, reach_timeout=300),
+         nshards=dict(quick=24, thorough=48),    # = len(TPFX) * (L+1) reach=["v2_fields_parsed", "v1_three_parts"],
          classify=classify_total,
          units=["web.decode_signed_value", "web._get_version", "web._decode_signed_value_v1",
                 "web._decode_signed_value_v2", "web._decode_fields_v2", "web.get_signature_key_version"],
